@@ -104,7 +104,7 @@ func cmd(first, last byte) (c ql.CommandID)   { c[0] = first; c[31] = last; retu
 func NewSpace(tier string, reduce bool) *Space {
 	d1, d2 := dig(0xd1, 0), dig(0xd2, 0)
 	s := &Space{Tier: tier}
-	s.Epoch = []uint64{1, 2, 1 << 32}
+	s.Epoch = []uint64{1, 1 << 32}
 	s.Term = []uint64{1, 2}
 	s.Fence = []uint64{1, 2}
 	s.Pred = []Pred{
@@ -115,19 +115,21 @@ func NewSpace(tier string, reduce bool) *Space {
 		{2, 1, d1}, // index differs
 	}
 	s.Cmd = []ql.CommandID{cmd(1, 0), cmd(0, 1)}
-	s.ID = []uint64{1, 2, 1 << 63}
+	s.ID = []uint64{1, 1 << 63}
 	s.Setting = []uint8{0, 1, 128}
 	s.Sync = []bool{false, true}
-	s.TS = []int64{1, 2, math.MaxInt64}
+	s.TS = []int64{1, math.MaxInt64}
 	s.From = []string{"", "a", "ab", "a" + be8(0) + be8(16)}
 	s.Client = []string{"", "c", "bc", "c" + be8(8)}
 	s.Pay = []string{"", "c", be8(0), be8(0) + be8(0)}
 	if tier == "thorough" {
+		s.Epoch = append(s.Epoch, 2)
+		s.TS = append(s.TS, 2)
 		s.Term = append(s.Term, 1<<40)
 		s.Fence = append(s.Fence, 256)
 		s.Pred = append(s.Pred, Pred{1 << 32, 1, d1}, Pred{1, 1, dig(0xd1, 1)})
 		s.Cmd = append(s.Cmd, cmd(1, 1))
-		s.ID = append(s.ID, 256)
+		s.ID = append(s.ID, 2, 256)
 		s.Setting = append(s.Setting, 255)
 		s.From = append(s.From, be8(1)+"a")
 		s.Client = append(s.Client, "b")
